@@ -87,13 +87,20 @@ META["C15"] = dict(
 META["C03"] = dict(
     engine="lean+harness(crash)",
     design_ref="DESIGN.md section 5, C03",
-    technique="Lean 4 model of recovery (Open: snapshot/rescan with tail truncation, freelist repair) checked against real recoveries of captured and torn crash images; crash-safety specification evaluated on every real recovery",
+    technique="Lean 4 proof (every crash image of a Flush - any byte cut, early rollover - recovers without error to the old or the new value per key) over a crash-image model tied to real images + real recoveries of captured and torn crash images compared with the model's; crash-safety specification evaluated on every real recovery",
     text="Crash images are captured by hook points between file-system steps of Flush, Close, Open and both GCs on the real code; torn "
          "variants are every byte prefix of each appended region. Each image is recovered by the real code (open, read all, follow-up "
          "workload with GC, rescan) and by the Lean model from the same bytes; the crash-safety clause (flushed value or a later "
-         "acknowledged one, never an error, behaviour preserved afterwards) is evaluated on the real outcome. The crash theorem itself "
-         "(C03_crash_safe_partial over fsSteps prefixes) is not yet proved: proved core = record-list theorems; known findings D11, D12 "
-         "are excluded by decidable recognisers on the image/history.",
+         "acknowledged one, never an error, behaviour preserved afterwards) is evaluated on the real outcome. PROVED (Sth/Props/C03.lean, "
+         "over Sth/Model/CrashImage.lean whose images are compared with every real image captured inside Flush): "
+         "C03_flush_crash_recovers (for every legal configuration, every history of Put/Get/Has/GetSize/Remove/Flush/iteration/reopen, "
+         "every flush order, EVERY number of file events k and both rollover variants: the image reopens without error and every key "
+         "- any byte string - reads what it read at the last completed flush or what it reads after this one), "
+         "C03_flush_crash_against_map (the same against the map at the last durable point / now; never an error for a well-formed "
+         "key), C03_removed_flushed_stays_absent, C03_flushed_unchanged_survives, C03_image_zero/_full. Partial with respect to the "
+         "statement: crashes inside Close, GC, open and upgrade steps, and the behaviour of the recovered store afterwards, are covered "
+         "by the crash engine (images at ~100 hook points recovered by the real code and by the model), not by theorems; known findings "
+         "D11, D12 are excluded by decidable recognisers on the image/history.",
     note=SEQ_NOTE + " Process-crash semantics: bytes reach files in order; rename/unlink/truncate/4-byte pwrite atomic. Hook completeness "
          "(every FS step lies between two points) is by construction of the hook commit, not yet audited with strace.",
 )
@@ -104,12 +111,18 @@ SCHED_NOTE = ("Trusts: Lean kernel; the cooperative scheduler of the harness (go
 META["C05"] = dict(
     engine="lean+harness(sched)",
     design_ref="DESIGN.md section 5, C05",
-    technique="linearizability specification in Lean evaluated on real concurrent histories produced by a cooperative scheduler over hook points; record-list theorems as proved core",
+    technique="Lean 4 proof (linearizability of the lock-section model for all schedules without overlapping mutators of one key; unconditional frame theorem) + the model replayed on every real schedule + linearizability search on the real histories",
     text="Real concurrent histories are produced by parking goroutines at the lock-section boundaries of Put/Remove/Get/Index.Get/Flush "
          "and releasing them under seeded schedules; the Lean driver checks that no call errs, searches exhaustively for a linearization "
-         "against the map specification and compares the quiescent contents with the linearization's final state. The small-step theorem "
-         "(C05_linearizable_partial, C05_no_interference over atomic sections) is stated in DESIGN.md and not yet proved; the key-"
-         "non-interference inside one bucket rests on the proved C08 frame theorems. Known finding D17 (overlapping mutators of one key).",
+         "against the map specification and compares the quiescent contents with the linearization's final state. PROVED over "
+         "Sth/Model/Conc.lean (calls as sequences of lock sections; tied to the code by replaying every real schedule over named points: "
+         "return values and final contents agree, D17 behaviours included; section atomicity is the regenerated fact C05_mutators_atomic): "
+         "C05_linearizable (every schedule in which mutators of one key do not overlap: the ghost log taken at the linearization points "
+         "is a legal sequential map history ending in the final contents, each call's entry is appended by one of its own sections, the "
+         "results returned are the log's), C05_real_time, C05_linearizable_owned (one writer per key suffices, for EVERY schedule), "
+         "C05_read_your_writes, C05_keys_do_not_interfere (unconditional frame), C05_freelist_exactly_once / C05_no_leak, and decide-"
+         "witnesses that the premise is needed (Update error, lost Put with leaked record, double free = known finding D17). "
+         "Non-interference INSIDE one bucket's record list is C08's frame theorems.",
     note=SCHED_NOTE,
 )
 META["C06"] = dict(
@@ -193,12 +206,18 @@ META["C17"] = dict(
 META["C09"] = dict(
     engine="lean+harness(seq,crash)",
     design_ref="DESIGN.md section 5, C09",
-    technique="byte-level Lean model of translateIndex/MoveFiles compared with the real re-bucketing; crash images at every move recovered by the real code; map oracle",
+    technique="Lean 4 proof (re-bucketing refines the same map for all pairs of bit sizes, both open paths; mismatching limits refused with the directory untouched) + byte-level correspondence of translateIndex/MoveFiles; crash images at every move; map oracle",
     text="Model of translateIndex (old index opened with its own bits, entries iterated in bucket order, re-inserted through index.Put into "
          "a fresh index whose flush order is a parameter, directory swap) compared byte-for-byte with the real store over hundreds of "
-         "re-bucketings and refused opens; crash images inside the translation are recovered by the real code. The theorem C09_translate "
-         "(abs preserved, Inv for the new bit size) is not yet proved; it rests on the proved C08 insertion theorems and C01 refinement. "
-         "Known finding D13 (no atomic swap).",
+         "re-bucketings and refused opens; crash images inside the translation are recovered by the real code. PROVED (Sth/Props/C09.lean): "
+         "C09_translate_preserves_contents (for every legal configuration pair differing in bits, every history before, every flush "
+         "order of the old and the new index, snapshot kept or dropped: the reopen succeeds, primary, freelist and primary header are "
+         "untouched, the index header carries the new bits, and EVERY later history returns what the map continued from the old "
+         "contents returns), C09_reads_preserved, C09_mismatch_refused (a different index file-size limit - whatever the bits - or "
+         "primary file-size limit is refused with the specific error and the directory returned is the input directory), "
+         "C09_same_bits_no_translation, C09_strip_total (the premise on keys suffices for both bit sizes), C09_unspecified_ifs (the "
+         "observation that IndexFileSize(0) silently switches to the default limit: contents preserved). Known finding D13 (no atomic "
+         "swap) concerns crashes inside the translation, outside these theorems.",
     note=SEQ_NOTE,
 )
 
